@@ -23,7 +23,7 @@ CHECKS = {
              "checked for decode/sentinel/density only (whether those functions pass a mapping on is C03's subject)."),
     "C02": dict(
         engine="lifesim", design="6.2", category="exploration",
-        technique=TECH + ": seeded histories with save -> fresh process -> load at arbitrary points, reference row model, logical digests",
+        technique=TECH + ": seeded histories with save -> fresh process -> load at arbitrary points, reference row model, logical digests; faults store.torn-save (save killed before its k-th dataset: load must refuse or return what was being saved) and leftover.stale-same-shape",
         text="Every load crosses a simulated process boundary (only the file survives) and may happen at any point of a history, so the "
              "screens persisted are the ones tests never build: mappings larger than the rows (after a split), partly revealed, merged "
              "plates, non-ASCII/empty names, NaN and denormal observations. Equality is bit-for-bit on observations, dictionary equality "
@@ -32,7 +32,7 @@ CHECKS = {
              "Known finding: zero-row screens save but do not load."),
     "C03": dict(
         engine="lifesim", design="6.3", category="exploration",
-        technique=TECH + ": seeded reveal/mask/unmask/save/load histories (function and CLI-process level) on both halves of a prepared simulation, frozen-id reference, prediction invariance oracle",
+        technique=TECH + ": seeded reveal/mask/unmask/save/load histories (function and CLI-process level) on both halves of a prepared simulation, frozen-id reference (incl. hand-built permuted mappings), prediction invariance oracle; torn-archive, leftover and transient-open faults on the CLI steps",
         text="Prepared simulations in which a sample or (treatment, dose) is forced into hold-out-only rows, then arbitrary histories on the "
              "training and test screens with process boundaries at any step. Oracles: every live screen's ids agree with the ids frozen at "
              "preparation; embedding sizes never shrink along a lineage; a posterior sample sized by the first stage predicts bit-identically "
@@ -40,7 +40,7 @@ CHECKS = {
         note="Found the missing-mapping defect of reveal_plates/mask_screen/unmask_screen on the pinned tree (repaired by a fix: commit)."),
     "C12": dict(
         engine="lifesim", design="6.12", category="exploration",
-        technique=TECH + ": seeded mask/unmask/reveal/save/load/set_observed histories with poisoned-plate faults, reference row model checked on every live screen after every step",
+        technique=TECH + ": seeded mask/unmask/reveal/save/load/set_observed histories with poisoned-plate faults, reference row model checked on every live screen after every step; leftover.earlier-attempt at the reveal step, torn archives",
         text="Histories of mask / unmask / reveal (id sets with already observed, repeated, unknown ids) / save / load, through the function "
              "and through reveal_plate + extract_screen_metadata processes. After every step every live screen must have atomic plates and "
              "equal the reference rows exactly; the metadata counter must drop by the number of newly revealed plates; poisoned plates "
@@ -48,7 +48,7 @@ CHECKS = {
         note="In-place operations are applied to un-aliased copies (reveal results share arrays with their source; no property speaks about that)."),
     "C11": dict(
         engine="prepsim", design="6.11", category="exploration",
-        technique=TECH + ": seeded preparation histories (chains of generators/smoothers/cover/filter/reveal/split, generator in any state), multiset conservation oracle against input snapshots",
+        technique=TECH + ": seeded preparation histories (chains of generators/smoothers/cover/filter/reveal/split, generator in any state), multiset conservation oracle against input snapshots; the preparation process re-run into a job directory holding an earlier attempt's output",
         text="Chains of the shipped preparation operations on screens with duplicate conditions, single-agent rows and observed + unobserved "
              "plates, so each operation also runs on the outputs of the others (merged plates, ''-named plates, appended observed part). "
              "Every returning operation is judged by multiset algebra against a snapshot taken before the call: generators keep all "
@@ -74,7 +74,7 @@ CHECKS = {
         note="History-only simulation: no I/O, no faults (said plainly in DESIGN 6.14). Plate.merge is outside the property's operation list."),
     "C05": dict(
         engine="dbalsim", design="6.5", category="exploration",
-        technique=TECH + ": partition schedules of the scoring phase (co-scheduling, chunking, sub-batching, order, relabelling, entropy reseed) against a loop-by-loop reference estimator",
+        technique=TECH + ": partition schedules of the scoring phase (co-scheduling, chunking, sub-batching, order, relabelling, entropy reseed) against a loop-by-loop reference estimator; alloc.failure fault in the scoring kernel; thread schedule owned by the simulator",
         text="The same plates are scored alone, co-scored, split over every chunk index of several chunk counts, with scorer sub-batches "
              "from 1 to more than the number of plates, with the plate dict and the screen rows permuted, with the posterior samples "
              "and the distance matrix consistently relabelled (chain files arriving in another order), with a reseeded generator, and "
@@ -84,7 +84,7 @@ CHECKS = {
              "independent in padding, masks, axes, sub-batching and triple indexing. n <= 8 posterior samples, <= 7 plates x <= 8 experiments."),
     "C06": dict(
         engine="scoresim", design="6.6", category="exploration",
-        technique=TECH + ": simulated scoring and selection processes (real CLIs or direct calls) with seeded chunk counts, batches, completion and arrival orders; recording scorer/policy; history oracle",
+        technique=TECH + ": simulated scoring and selection processes (real CLIs or direct calls) with seeded chunk counts, batches, completion and arrival orders; recording scorer/policy; history oracle; leftover, transient-open and torn-archive faults",
         text="One calculate_scores worker per chunk (1 to more chunks than plates), any batch of already selected ids (unobserved, "
              "observed-after-reveal, mixed, all candidates), score files combined by the select_next_plate process in a seeded arrival "
              "order, with no policy / k-per-sample / a scripted policy and with scripted scores containing ties and -inf. Over the "
@@ -94,7 +94,7 @@ CHECKS = {
         note="The recording scorer/policy are resolved by the CLIs' own introspection (bound into a batchie module from outside). NaN scores are outside the statement."),
     "C07": dict(
         engine="distsim", design="6.7", category="fault_enumeration",
-        technique=TECH + ": per-chunk distance worker processes, seeded arrival order at the combining stage, chunk.duplicate and chunk.lose faults (all single faults enumerated in the thorough tier)",
+        technique=TECH + ": per-chunk distance worker processes, seeded arrival order at the combining stage, chunk.duplicate and chunk.lose faults (all single faults enumerated in the thorough tier); leftover, transient-open and torn-archive faults",
         text="Real calculate_distance_matrix processes for every chunk index over real holder files (0-14 samples, 1-3 chain files), "
              "n_chunks from 1 to more than the number of pairs; the combining stage loads the files in a seeded arrival order, with "
              "chunks duplicated (same matrix required) or withheld (to_dense must refuse). The assembled matrix must equal the "
@@ -112,7 +112,7 @@ CHECKS = {
         note="Parameters are simulator-chosen arrays of both shipped sample types; arity 1 and 2; control in either or both columns."),
     "C10": dict(
         engine="holdersim", design="6.10", category="exploration",
-        technique=TECH + ": holder operation machine against a Python list with save -> fresh process -> load; chain files arriving at the evaluate_model process in a seeded order",
+        technique=TECH + ": holder operation machine against a Python list with save -> fresh process -> load; chain files arriving at the evaluate_model process in a seeded order; transient.h5.open in that process; torn archives",
         text="(a) Histories of add/get/save/load/combine/concat on holders of both sample types with float64-adversarial values "
              "(denormals, values lost in float32, signed zeros), >= 10 samples in a share of runs, empty single-effect tables; reloaded "
              "samples must be bit-identical, in order, and predict identically; over-filling, out-of-range access and saving empty must "
@@ -122,7 +122,7 @@ CHECKS = {
         note="All samples of a holder share their shared parameters (the file format stores them once)."),
     "C04": dict(
         engine="twinsim", design="6.4", category="fault_enumeration",
-        technique=TECH + ": twin runs of a whole simulated round differing only in the injected fault store.poison-masked; artefact-by-artefact logical digests; training-set reference; fail-stop probes",
+        technique=TECH + ": twin runs of a whole simulated round differing only in the injected fault store.poison-masked; artefact-by-artefact logical digests; training-set reference; fail-stop probes; transient.model.step (a failing Gibbs step) in the training process",
         text="The whole round (train x chains -> distance x chunks -> scores x chunks -> select, real CLI processes) is made a "
              "deterministic function of (files, seeds, entropy, schedule) and run twice: on the clean screen file and on a copy whose "
              "masked observation cells were overwritten (junk, 0, 1, negative, NaN, inf, mixed). Arrays handed to the model, every theta "
@@ -133,7 +133,7 @@ CHECKS = {
              "both repaired by fix: commits. <= 40 rows, <= 2 chains x 3 samples."),
     "C17": dict(
         engine="samplesim", design="6.17", category="exploration",
-        technique=TECH + ": stepper harness around sampling.sample (event history of a fake model, model.dirty fault) plus real train_model processes launched in seeded order under different process entropy; generator fingerprints",
+        technique=TECH + ": stepper harness around sampling.sample (event history of a fake model, model.dirty fault) plus real train_model processes launched in seeded order under different process entropy; generator fingerprints; transient.model.step on the fake model",
         text="sampling.sample drives a fake MCMC / VI model logging reset / set_rng / step / record; the event history must be "
              "reset + set_rng before the first step, exactly b + n*t steps, records right after steps b+t, ..., b+n*t, a complete "
              "collection; VI: one sample(n) call. The generator handed to the model is fingerprinted (first 1024 raw outputs): equal "
@@ -143,7 +143,7 @@ CHECKS = {
         note="Order of reset vs set_rng is not part of the statement. A chance overlap of two 64-bit streams within 1024 outputs has probability < 2^-40."),
     "C18": dict(
         engine="twinsim", design="6.18", category="exploration",
-        technique=TECH + ": twin runs differing only in process entropy (global numpy/stdlib state, OS entropy, interleaved unrelated draws, fresh interpreter under another PYTHONHASHSEED); output and global-state equality; tripwires for attribution",
+        technique=TECH + ": twin runs differing only in process entropy (global numpy/stdlib state, OS entropy, interleaved unrelated draws, fresh interpreter under another PYTHONHASHSEED); output and global-state equality; tripwires for attribution; simulated wall clock / pid / directory order and a simulator-owned thread schedule that differ between the twins; transient faults inside a step (must fail or produce the undisturbed output)",
         text="Every randomised operation the statement lists, at function level and as CLI processes with --seed, is executed as a twin "
              "pair with identical inputs and identically seeded generator but different process entropy and k unrelated global draws in "
              "between (thorough: second twin in a fresh interpreter under another hash seed). Judged: outputs identical; global numpy and "
@@ -153,7 +153,7 @@ CHECKS = {
              "from global state / OS entropy), both repaired by fix: commits."),
     "C19": dict(
         engine="orchsim", design="6.19", category="fault_enumeration",
-        technique=TECH + ": the real orchestration script under crash/restart with proxied os/shutil/glob/subprocess, a stubbed nextflow (DAG, seeded completion order, per-file publication), census-based crash placement, reference trace + reference model of the orchestration",
+        technique=TECH + ": the real orchestration script under crash/restart with proxied os/shutil/glob/subprocess, a stubbed nextflow (DAG, seeded completion order, per-file publication), census-based crash placement, reference trace + reference model of the orchestration; crash delivery as kill / non-zero exit / Ctrl-C; simulator-owned thread schedule",
         text="The real nextflow/scripts/batchie.py runs in a fresh module instance per (re)start against a scratch output tree; every "
              "primitive file-system effect (each mkdir inside makedirs, each entry removed by rmtree), every launch, every process "
              "completion and every published file of the stubbed workflows is a crash site. A fault-free census run under the same "
@@ -182,7 +182,7 @@ CHECKS = {
              "precision bound is not judged for an empty training set."),
     "C16": dict(
         engine="batchsim", design="6.16", category="exploration",
-        technique=TECH + ": the batch loop with simulator-chosen winners (search over selection schedules), function level and select/reveal processes with reload in between; state invariants at every reachable (batch, remaining) state",
+        technique=TECH + ": the batch loop with simulator-chosen winners (search over selection schedules), function level and select/reveal processes with reload in between; state invariants at every reachable (batch, remaining) state; input.torn-file (a cut-off score chunk file), score regimes with infinities",
         text="Batches are grown from the empty batch by repeated select_next_plate under the real KPerSamplePlatePolicy (behind a "
              "recording wrapper); the simulator scripts the scores so that every allowed plate is the winner somewhere (thorough: all "
              "winners of small screens are walked). At every reached state: allowed is a subset of unobserved non-batch plates; with a "
